@@ -73,6 +73,9 @@ REGRESSIONS = [
     ("reset:p.sequence@loaded", "xmp_get_frame_info in state LOADED shows (and indexes the scan data with) the previous module's position",
      lambda: "case 0 hist %s rate 44100 fmt 0 smix 0 mem 0 rng 12345\nH load 0 0 0 0 %s\nH start 44100 0 0 0\nH setpos 200 0 0 0\n"
              "H frames 12 0 0 0\nC frames 4 0 0 0\n" % (REPO_DATA("ode2ptk.mod"), REPO_DATA("scan_240_seq.it"))),
+    ("reset:far_module_extras", "FAR module-wide tempo/vibrato state changed by effects survives into the next player run",
+     lambda: "case 0 hist %s rate 49170 fmt 7 smix 0 mem 0 rng 12345\nPR 49170 7 0\nR frames 60 0 0 0\nC frames 40 0 0 0\n" % (
+         REPO_DATA("far_effect9.far"),)),
     ("reset:s.ticksize", "frame info buffer_size before the first frame is the previous run's tick size",
      lambda: "case 0 hist %s rate 44100 fmt 0 smix 0 mem 0 rng 12345\nH load 0 0 0 0 %s\nH start 44100 0 0 0\nH frames 12 0 0 0\n"
              "C getinfo 0 0 0 0\nC frames 4 0 0 0\n" % (REPO_DATA("ode2ptk.mod"), os.path.join(vlib.REPO, "test", "test.it"))),
@@ -99,6 +102,7 @@ def pick_modules(ck, n):
     # test-dev/data/f holds malformed files (loader regression inputs): they mostly fail to load
     files = [f for f in vlib.corpus_files() if os.path.getsize(f) < 300000 and MODULE_EXT.search(f) and "/data/f/" not in f]
     must = [REPO_DATA("storlek_01.it"), REPO_DATA("ode2ptk.mod"), REPO_DATA("scan_240_seq.it"), REPO_DATA("pattern_loop_liq.liq"),
+            REPO_DATA("far_effect9.far"), REPO_DATA("far_effectF.far"), REPO_DATA("beep.oxm"),
             os.path.join(vlib.REPO, "test", "test.xm"), os.path.join(vlib.REPO, "test", "test.it")]
     must = [f for f in must if os.path.exists(f)]
     rest = [f for f in files if f not in must]
@@ -118,7 +122,7 @@ def split_cases(text):
 
 
 def replay_text_hist(case):
-    return "\n".join(l for l in case["lines"] if l.startswith(("case ", "H ", "C "))) + "\n"
+    return "\n".join(l for l in case["lines"] if l.startswith(("case ", "H ", "C ", "PR ", "R "))) + "\n"
 
 
 def replay_text_iso(case, order=None, nthreads=0):
@@ -147,7 +151,7 @@ def check_reset(ck, exe, mods, fields, ncases, maxhist, nshards):
     shards = [(exe, [str(ck.seed * 104729 + i), str(ncases), str(maxhist)] + mods) for i in range(nshards)]
     results = vlib.pmap(run_shard, shards)
     st = {"hist_cases": 0, "hist_compared": 0, "op_cases": 0, "op_compared": 0, "op_skipped": 0, "load_failed": 0, "frames": 0,
-          "image_leaves_compared": 0, "model_values_compared": 0, "model_values_external": 0, "nonsilent_cases": 0}
+          "restart_cases": 0, "image_leaves_compared": 0, "model_values_compared": 0, "model_values_external": 0, "nonsilent_cases": 0}
     opkinds, dead_seen, hist_states = {}, {}, {}
     for (rc, out, err), sh in zip(results, shards):
         if rc != 0:
@@ -229,6 +233,8 @@ def check_reset(ck, exe, mods, fields, ncases, maxhist, nshards):
             st["frames"] += frames
             if nonzero > 0:
                 st["nonsilent_cases"] += 1
+            if any(l.startswith("prerun ") for l in lines):
+                st["restart_cases"] += 1
             compared = any(l.startswith("image_start") for l in lines)
             if compared:
                 st["hist_compared"] += 1
@@ -242,6 +248,8 @@ def check_reset(ck, exe, mods, fields, ncases, maxhist, nshards):
                 dead_seen[d[1]] = dead_seen.get(d[1], 0) + 1
             if fails:
                 field = path_of(unexpected[0][1], leaves) if unexpected else None
+                if field == "m.extra":
+                    field = "far_module_extras"     # the only canonicalised module extras (FAR tempo / vibrato state)
                 sig = "reset:" + field if field else "oracle:" + fails[0].split()[1] + ":" + os.path.basename(c["head"].split()[3])
                 ck.violation(sig, {"how": "write `script` to a file and run: c06_reset --replay <file>", "harness": "c06_reset",
                                    "script": replay_text_hist(c), "oracle": fails[:4], "image_diffs": [" ".join(d) for d in diffs[:8]]},
